@@ -24,7 +24,6 @@ rank = z3.Function('rank', Addr, z3.IntSort())
 VarE = z3.Function('VarE', Str, Str, Val)              # the expression a variable resolves to for an asset type
 AssetByName = z3.Function('AssetByName', Str, Val)     # language-graph asset with that name (None if absent)
 VarAny = z3.Function('VarAny', Str, Val)                # the expression variable `name` resolves to for every live asset (uniform resolution)
-XCopy = z3.Function('XCopy', Addr, z3.BoolSort())           # ghost: the dict is an expression record of the specification or a faithful (deep) copy of one
 SetOf = z3.Function('SetOf', BagSort, SetA)            # the set of references held by a list (given by its bag)
 K = lambda s_: VStr(str_const(s_))
 S = str_const
@@ -186,18 +185,31 @@ def install(reg: Registry):
 
     EXPR_KEYS = (('type', False), ('name', False), ('subType', False), ('lhs', True), ('rhs', True), ('stepExpression', True))
 
+    def is_xc(o, hs, d):
+        """d is a dict whose origin is an expression-like record of the specification (a dict with a 'type' entry)"""
+        od = o.orig(d)
+        return z3.And(d >= 0, d < o.alloc, o.cls(d) == CLS_DICT, od >= 0, od < hs.alloc, hs.cls(od) == CLS_DICT, hs.has(od, K('type')))
+
     def faithful(o, hs):
+        """global heap property GF: every dict whose origin is such a record is a faithful copy of it — same expression keys, same
+        scalars, children that are again such dicts with the origin's children as origins.  (Deep copies made by DEEPCOPY have
+        it by construction; nothing in the toolbox writes the expression keys of a copy.)"""
         d = A('d!ff')
         od = o.orig(d)
-        conj = [d >= 0, d < o.alloc, od >= 0, od < hs.alloc, o.cls(d) == CLS_DICT, hs.cls(od) == CLS_DICT, hs.has(od, K('type')), o.orig(od) == od]
+        conj = [o.orig(od) == od]
         for k, tree in EXPR_KEYS:
             conj.append(o.has(d, K(k)) == hs.has(od, K(k)))
             if tree:
                 ch = v_a(o.val(d, K(k)))
-                conj.append(z3.Implies(o.has(d, K(k)), z3.And(is_VRef(o.val(d, K(k))), XCopy(ch), o.orig(ch) == v_a(hs.val(od, K(k))))))
+                conj.append(z3.Implies(o.has(d, K(k)), z3.And(is_VRef(o.val(d, K(k))), is_xc(o, hs, ch), o.orig(ch) == v_a(hs.val(od, K(k))))))
             else:
                 conj.append(z3.Implies(o.has(d, K(k)), o.val(d, K(k)) == hs.val(od, K(k))))
-        return FA([d], z3.Implies(XCopy(d), z3.And(*conj)), [XCopy(d)])
+        return FA([d], z3.Implies(is_xc(o, hs, d), z3.And(*conj)), [o.orig(d)])
+
+    def no_fresh_dicts(o, h):
+        """the evaluator allocates lists and sets only: no dict has been created since entry"""
+        d = A('d!nf')
+        return FA([d], z3.Implies(z3.And(d >= o.alloc, d < h.alloc), h.cls(d) != CLS_DICT), [h.cls(d)])
 
     def requires(c):
         o = c.old
@@ -209,10 +221,10 @@ def install(reg: Registry):
             ('HS.agree', agree(hs, o)),
             ('HS.closed', z3.And(*heap_closed(hs))),
             ('HS.objects', z3.And(e >= 0, e < hs.alloc, c.model >= 0, c.model < hs.alloc, c.lang_graph >= 0, c.lang_graph < hs.alloc)),
-            ('expression-is-a-faithful-copy', XCopy(c.step_expression)),
+            ('expression-is-a-copy-of-a-record', is_xc(o, hs, c.step_expression)),
             ('faithful', faithful(o, hs)),
-            ('originals-are-expressions', FA([eq], z3.Implies(z3.And(eq >= 0, eq < hs.alloc, hs.cls(eq) == CLS_DICT, hs.has(eq, K('type'))),
-                                                             z3.And(XCopy(eq), o.orig(eq) == eq)), [hs.has(eq, K('type'))])),
+            ('records-are-originals', FA([eq], z3.Implies(z3.And(eq >= 0, eq < hs.alloc, hs.cls(eq) == CLS_DICT, hs.has(eq, K('type'))), o.orig(eq) == eq),
+                                         [hs.has(eq, K('type'))])),
             ('wf_expr', wf_expr(hs)),
             ('expr-is-dict', z3.And(hs.cls(e) == CLS_DICT, hs.has(e, K('type')))),
             ('no-transitive', NoTrans(e)),
@@ -261,6 +273,7 @@ def install(reg: Registry):
             ('fresh-or-argument', z3.And(z3.Or(z3.And(R >= o.alloc, R < h.alloc), R == c.target_assets), h.cls(R) == CLS_LIST,
                                          z3.Implies(z3.Not(EndsInStep(e)), R >= o.alloc))),
             ('nothing-old-is-written', old_unchanged(o, h)),
+            ('no-fresh-dicts', no_fresh_dicts(o, h)),
         ]
 
     def bind_X(ex, st, args):
@@ -279,7 +292,7 @@ def install(reg: Registry):
             dn = lambda q: z3.Select(c.done, VRef(q)) > 0
             base = [
                 ('HS.agree', agree(HSc(c), h)),
-                ('nothing-old-is-written', old_unchanged(o, h)),
+                ('nothing-old-is-written', old_unchanged(o, h)), ('no-fresh-dicts', no_fresh_dicts(o, h)),
                 ('acc-elems', FA([v], z3.Implies(h.bag(acc, v) > 0, z3.And(is_VRef(v), HSc(c).cnt(HSc(c).f('assets', c.model), v_a(v)) > 0)), [h.bag(acc, v)])),
                 ('operands-kept', z3.And(list_same(c.hl, h, rh), z3.BoolVal(True) if kind == 'union' else list_same(c.hl, h, lh))),
                 ('acc-fresh', z3.And(acc >= o.alloc, acc < h.alloc, h.cls(acc) == CLS_LIST, acc != rh) if kind != 'union' else
@@ -302,7 +315,7 @@ def install(reg: Registry):
     # loop ordinals in source order: 0 union, 1 intersection, 2 difference, 3 variable, 4 field, 5 while (transitive),
     # 6, 7 nested for (transitive), 8 subType collect, 9 subType filter
     def variable_inv(c: LCtx):
-        return [('first-iteration-returns', c.i == 0), ('nothing-old-is-written', old_unchanged(c.old, c.h)),
+        return [('first-iteration-returns', c.i == 0), ('nothing-old-is-written', old_unchanged(c.old, c.h)), ('no-fresh-dicts', no_fresh_dicts(c.old, c.h)),
                 ('HS.agree', agree(HSc(c), c.h))]
 
     def field_inv(c: LCtx):
@@ -312,7 +325,7 @@ def install(reg: Registry):
         v = z3.Const('v!fi', Val)
         return [
             ('HS.agree', agree(HSc(c), h)),
-            ('nothing-old-is-written', old_unchanged(o, h)),
+            ('nothing-old-is-written', old_unchanged(o, h)), ('no-fresh-dicts', no_fresh_dicts(o, h)),
             ('acc-fresh', z3.And(acc >= o.alloc, acc < h.alloc, h.cls(acc) == CLS_LIST)),
             ('acc-elems', FA([v], z3.Implies(h.bag(acc, v) > 0, z3.And(is_VRef(v), HSc(c).cnt(HSc(c).f('assets', c.model), v_a(v)) > 0)), [h.bag(acc, v)])),
             ('members', FA([y], (h.cnt(acc, y) > 0) == z3.Exists([x], z3.And(z3.Select(c.done, VRef(x)) > 0,
@@ -327,7 +340,7 @@ def install(reg: Registry):
         s = sub_e(HSc(c), E(c), 'stepExpression')
         return [
             ('HS.agree', agree(HSc(c), h)),
-            ('nothing-old-is-written', old_unchanged(o, h)),
+            ('nothing-old-is-written', old_unchanged(o, h)), ('no-fresh-dicts', no_fresh_dicts(o, h)),
             ('acc-fresh', z3.And(acc >= o.alloc, acc < h.alloc, h.cls(acc) == CLS_LIST)),
             ('acc-elems', FA([v], z3.Implies(h.bag(acc, v) > 0, z3.And(is_VRef(v), HSc(c).cnt(HSc(c).f('assets', c.model), v_a(v)) > 0)), [h.bag(acc, v)])),
             ('members', FA([y], (h.cnt(acc, y) > 0) == z3.And(c.i > 0, z3.Select(Sem(s, c.X), y)), [h.cnt(acc, y)])),
@@ -343,7 +356,7 @@ def install(reg: Registry):
         ok = lambda q: ANC(v_a(AssetByName(HSc(c).f('type', q))), v_a(AssetByName(v_s(HSc(c).val(e, K('subType'))))))
         return [
             ('HS.agree', agree(HSc(c), h)),
-            ('nothing-old-is-written', old_unchanged(o, h)),
+            ('nothing-old-is-written', old_unchanged(o, h)), ('no-fresh-dicts', no_fresh_dicts(o, h)),
             ('sel-fresh', z3.And(sel >= o.alloc, sel < h.alloc, h.cls(sel) == CLS_LIST, sel != src)),
             ('src-kept', list_same(c.hl, h, src)),
             ('sel-elems', FA([v], z3.Implies(h.bag(sel, v) > 0, z3.And(is_VRef(v), HSc(c).cnt(HSc(c).f('assets', c.model), v_a(v)) > 0)), [h.bag(sel, v)])),
